@@ -363,7 +363,7 @@ func c11Effective(p c11Conf, o *c11Over) c11Conf {
 			e.Up = o.Up
 		}
 
-		if o.TTL != nil && *o.TTL > 0 {
+		if o.TTL != nil { // since the fix of C10-F3 a rule-level 0 disables caching
 			e.TTL = o.TTL
 		}
 
